@@ -49,6 +49,37 @@ def lrescale_probe(rebound):
     return out
 
 
+def record_member_oracle(rebound):
+    """every value member of a particle record / var_config record: a one-bit change in a copy must flip =="""
+    import struct
+    out = []
+    n = 0
+    def base():
+        s = rebound.Simulation(); s.add(m=1., r=0.01); s.add(m=1e-3, a=1., r=0.02); s.add_variation(); return s
+    for name, ct in rebound.Particle._fields_:
+        if name.startswith("_") or name in ("c", "ap", "sim") or ct not in (ctypes.c_double, ctypes.c_uint32, ctypes.c_uint):
+            continue
+        s = base(); c = s.copy()
+        fld = getattr(rebound.Particle, name)
+        addr = ctypes.addressof(c.particles[1]) + fld.offset
+        b = (ctypes.c_ubyte * 1).from_address(addr); b[0] ^= 1
+        n += 1
+        if s == c:
+            out.append({"key": "perturb:missed:particles." + name, "how": "low bit of particles[1].%s flipped in a copy; sim == copy still True" % name})
+    vc = type(base().var_config[0])
+    for name, ct in vc._fields_:
+        if name.lstrip("_") == "sim" or ct not in (ctypes.c_double, ctypes.c_int, ctypes.c_uint):
+            continue
+        s = base(); c = s.copy()
+        fld = getattr(vc, name)
+        addr = ctypes.addressof(c.var_config[0]) + fld.offset
+        b = (ctypes.c_ubyte * 1).from_address(addr); b[0] ^= 1
+        n += 1
+        if s == c:
+            out.append({"key": "perturb:missed:var_config." + name.lstrip("_"), "how": "low bit of var_config[0].%s flipped in a copy; sim == copy still True" % name})
+    return n, out
+
+
 def binary_diff(rebound, b1, b2):
     f = rebound.clibrebound.reb_binary_diff
     f.restype = ctypes.c_int
@@ -83,6 +114,22 @@ def run(ctx):
         except Exception as e:
             ctx.obligation("generator:diff_pairs", False, "%r on %s" % (e, json.dumps(rec)[:300]))
     pairs = pairs[:npairs]
+    # synthetic pairs that isolate the two loops of reb_binary_diff: a stream vs the same stream with ONE field removed
+    # (new field in stream 2 / vanished field, nothing else differs) and vs the same fields in a rotated order (equal)
+    for rec in recipes[:: max(1, len(recipes) // 6)][:6]:
+        try:
+            b = gen.save_bytes(rebound, gen.build(rebound, rec))
+            if len(b) > 30000:
+                continue
+            hdr, fields, trailer = gen.parse(b)
+            j = rng.randrange(len(fields))
+            less = gen.unparse(hdr, fields[:j] + fields[j + 1:], trailer)
+            k = rng.randrange(1, len(fields))
+            rot = gen.unparse(hdr, fields[k:] + fields[:k], trailer)
+            for (x, y) in ((less, b), (b, less), (b, rot), (rot, b)):
+                pairs.append((dict(rec, synthetic="drop/rotate field %d" % j), x, y, binary_diff(rebound, x, y)))
+        except Exception as e:
+            ctx.obligation("generator:synthetic pairs", False, "%r" % (e,))
     jobs = []
     chunk = 3
     for c0 in range(0, len(pairs), chunk):
@@ -144,6 +191,10 @@ def run(ctx):
     if szp.get("particle_z_pm0_sim_eq_copy") is True and szp.get("particle_z_bits_differ") is True:
         fails.append(dict(szp, key="signed-zero:particles"))
     fails += lrescale_probe(rebound)
+    nrm, rmf = record_member_oracle(rebound)
+    ctx.evaluations += nrm
+    ctx.obligation("oracle:record member sweep covered the value members of particle and var_config records", nrm >= 17, str(nrm))
+    fails += rmf
     ctx.log("oracles: %d recipes, %d perturbations, %.1fs" % (len(recipes), nper, time.time() - t0))
     for f in fails:
         rec = f.get("recipe") or {}
